@@ -76,7 +76,38 @@ impl Number {
         }
     }
 
+    /// Is Numeral
+    ///
+    /// True if text is spelled like a real numeral of the given radix: an optional
+    /// sign; then digits, or digits / digits, or digits with a point and - in radix
+    /// 10 - an exponent with an optional sign. The library parsers used by parse()
+    /// take more than that: underscores between digits, a sign after the slash,
+    /// `inf`, `nan` and `infinity`, a point with no digit at all.
+    fn is_numeral(text: &str, radix: u32) -> bool {
+        let body = text.strip_prefix(['+', '-']).unwrap_or(text);
+        let digits = |part: &str| !part.is_empty() && part.chars().all(|c| c.is_digit(radix));
+        if let Some((numer, denom)) = body.split_once('/') {
+            return digits(numer) && digits(denom);
+        }
+        let (mantissa, exponent) = match body.split_once(['e', 'E']) {
+            Some((mantissa, exponent)) if radix == 10 => (mantissa, Some(exponent)),
+            _ => (body, None),
+        };
+        let (whole, fraction) = mantissa.split_once('.').unwrap_or((mantissa, ""));
+        let mantissa_ok = whole.chars().all(|c| c.is_digit(radix))
+            && fraction.chars().all(|c| c.is_digit(radix))
+            && !(whole.is_empty() && fraction.is_empty());
+        let exponent_ok = match exponent {
+            Some(exponent) => digits(exponent.strip_prefix(['+', '-']).unwrap_or(exponent)),
+            None => true,
+        };
+        mantissa_ok && exponent_ok
+    }
+
     pub fn parse(text: &str, radix: u32) -> Option<Number> {
+        if !Self::is_numeral(text, radix) {
+            return None;
+        }
         if let Ok(num) = i64::from_str_radix(text, radix) {
             Some(Number::from(num))
         } else if let Ok(num) = BigInt::from_str_radix(text, radix) {
